@@ -82,7 +82,16 @@ def parse_equivalence(text, tmp):
   path = os.path.join(tmp, "build.ninja")
   with open(path, "w") as f:
     f.write(text)
-  plan = ninja_model.Plan(text)
+  try:
+    plan = ninja_model.Plan(text)
+  except ninja_model.PlanRejected as ex:
+    # a plan the planner itself got wrong (that is the check's business, not
+    # this validation's): the real tool must refuse it too
+    p = _run(["-t", "targets", "all"], tmp)
+    if p.returncode == 0:
+      raise kernel.HarnessError("model rejects a plan (%s) that real ninja "
+                                "accepts" % ex)
+    return 0
   p = _run(["-t", "targets", "all"], tmp)
   if p.returncode != 0:
     raise kernel.HarnessError("model accepts a plan real ninja rejects: %s" % p.stderr[-300:])
